@@ -19,3 +19,4 @@ for pp in p['pipes']: print('  pipe', pp)
 for x in r['diagnosis']: print('  D', x)
 for h in r.get('history', []):
     print('  H op %(op)d obj %(obj)d %(kind)s/%(disp)s inv %(inv)d ret %(ret)d start %(start)d end %(end)d resolve %(resolve)d runs %(runs)d susp %(suspensions)d runner %(runner_class)d out %(outcome)d polls %(waiter_polls_before_result)d canc %(cancelled)s dropped %(future_dropped_at)d' % h, h.get('resumer_used_at', ''))
+for pp in r.get('pipes', []): print('  P', pp)
